@@ -1,6 +1,8 @@
 # edited by hand as checks land
 _T = "Every listed obligation is decided by z3 over all integer values of its symbolic inputs within the stated skeleton bound (a bounded, not an unbounded, claim); "
 CLAIMED = {
+ "C18": ("DESIGN.md#c18", _T + "getFiber/getRank/getRoot/getTensor/getSubTree equal sums recomputed from a raw DFS for symbolic bit widths, all {C,U} assignments and missing-field patterns; queries are pure."),
+ "C12": ("DESIGN.md#c12", _T + "== versus content equality over independent skeletons (explicit defaults, empty sub-fibers), symmetry/reflexivity/transitivity, isEmpty, countValues, nonEmpty, deepcopy."),
  "C11": ("DESIGN.md#c11", _T + "every documented box/element operator and operand-kind pair equals the Python operator on the values (true division: concrete operands only); fiber + and * against union-sum / intersection-product; in-place forms against their value-returning twins."),
  "C05": ("DESIGN.md#c05", _T + "populate offers exactly the source coordinates with live references; post-loop content equals the overlay model; nothing left behind; source untouched; rank lists consistent inside and after the loops."),
  "C01": ("DESIGN.md#c01", _T + "well-formedness after every public mutator from an arbitrary well-formed pre-state (inductive step) and short histories; order-rejections leave the tree unchanged."),
